@@ -102,7 +102,7 @@ theorem field_exact_partial (O : Oracles) (R : String → PyVal → Bool) (S : S
 
 /-! ### a concrete non-trivial input meets the hypotheses -/
 
-def exO : Oracles := ⟨fun p s => p == "^x" && s == "xy"⟩
+def exO : Oracles := { reMatch := fun p s => p == "^x" && s == "xy" }
 def exS : String → String → Bool := fun p s => p == "^x" && s == "xy"
 
 def exInner : FieldDecl :=
@@ -151,7 +151,7 @@ theorem field_exact_example :
 
 /-! ### the code violates the full statement: kernel-checked counterexamples (known findings) -/
 
-def anyO : Oracles := ⟨fun _ _ => true⟩
+def anyO : Oracles := { reMatch := fun _ _ => true }
 def anyS : String → String → Bool := fun _ _ => true
 
 /-- what the validator says about the serialization of `x` (`true` when serialization fails) -/
